@@ -481,7 +481,7 @@ func (o *c13Oracle) AfterRun(w *World, op *Op, res *RunResult) {
 		}
 	case op.HasTag("detect") && arm == "invariance":
 		if !res.OK() {
-			w.Fail("invariance:run-failed", "Run{-c} after invariance operations failed: %s %s", res.Stage, res.Err)
+			w.Fail("invariance:run-failed:"+res.FailClass(), "Run{-c} after invariance operations failed: %s %s", res.Stage, res.Err)
 			return
 		}
 		// entities that appeared after the generation run have no stored hash to compare with; only
